@@ -31,7 +31,7 @@ class Burster(Manager):
         self.captured: list[dict] = []
 
     async def _send(self, method: str, url: str, headers=None, body=None, **kw) -> Response:
-        mutating = method != "GET" or "/media/index/" in url
+        mutating = method != "GET" or "/media/index/" in url or getattr(self, "capture_get", False)
         if self.capturing and mutating:
             hdrs = dict(headers or {})
             ck = self.jar.header(simclock.CLOCK.us)
@@ -40,6 +40,32 @@ class Burster(Manager):
             self.captured.append({"method": method, "url": url, "headers": hdrs, "body": body})
             return Response(status=0, headers=[], body=b"", fault="captured")
         return await super()._send(method, url, headers=headers, body=body, **kw)
+
+    async def op_get(self, st: dict) -> None:
+        """A player's request (manifest, initialization or media segment of a listed stream) as part of a burst."""
+        from .manager import rows, TEMPLATE_MODES
+        from ..api import BASE
+        world = self.sim.world
+        streams = rows(world, "Stream")
+        s = self.pick(streams, st.get("which", 0), False)
+        if s is None:
+            return
+        what = st.get("what", "manifest")
+        if what == "manifest":
+            tmpl, mode = TEMPLATE_MODES[st.get("tmpl", 0) % len(TEMPLATE_MODES)]
+            url = BASE + f"/dash/{mode}/{s['directory']}/{tmpl}"
+        else:
+            mfs = [m for m in rows(world, "media_file") if m["stream"] == s["pk"]]
+            if not mfs:
+                return
+            m = mfs[st.get("which_file", 0) % len(mfs)]
+            tail = "init.mp4" if what == "init" else f"{1 + st.get('n', 0) % 3}.mp4"
+            url = BASE + f"/dash/vod/{s['directory']}/{m['name']}/{tail}" + ("?drm=all" if m.get("encrypted") else "")
+        self.capture_get = True
+        try:
+            await self._send("GET", url)
+        finally:
+            self.capture_get = False
 
     async def op_burst(self, st: dict) -> None:
         reqs: list[dict] = []
